@@ -9,7 +9,6 @@ import re
 from abc import ABC, abstractmethod
 from collections.abc import Callable
 from inspect import getsource
-from typing import TYPE_CHECKING
 
 from pyiron_snippets.factory import classfactory
 
@@ -21,9 +20,6 @@ from pyiron_workflow.mixin.preview import ScrapesIO
 from pyiron_workflow.nodes.composite import Composite
 from pyiron_workflow.nodes.multiple_distpatch import dispatch_output_labels
 from pyiron_workflow.nodes.static_io import StaticNode
-
-if TYPE_CHECKING:
-    from pyiron_workflow.channels import Channel
 
 
 class Macro(Composite, StaticNode, ScrapesIO, ABC):
@@ -360,41 +356,6 @@ class Macro(Composite, StaticNode, ScrapesIO, ABC):
     @property
     def outputs(self) -> OutputsWithInjection:
         return self._outputs
-
-    def _parse_remotely_executed_self(self, other_self):
-        local_connection_data = [
-            [(c, c.label, c.connections) for c in io_panel]
-            for io_panel in [
-                self.inputs,
-                self.outputs,
-                self.signals.input,
-                self.signals.output,
-            ]
-        ]
-        super()._parse_remotely_executed_self(other_self)
-
-        for old_data, io_panel in zip(
-            local_connection_data,
-            [self.inputs, self.outputs, self.signals.input, self.signals.output],
-            strict=False,
-            # Get fresh copies of the IO panels post-update
-        ):
-            for original_channel, label, connections in old_data:
-                new_channel = io_panel[label]  # Fetch it from the fresh IO panel
-                new_channel.connections = connections
-                for other_channel in connections:
-                    self._replace_connection(
-                        other_channel, original_channel, new_channel
-                    )
-
-    @staticmethod
-    def _replace_connection(
-        channel: Channel, old_connection: Channel, new_connection: Channel
-    ):
-        """Brute-force replace an old connection in a channel with a new one"""
-        channel.connections = [
-            c if c is not old_connection else new_connection for c in channel
-        ]
 
     def _configure_graph_execution(self, ui_nodes):
         run_signals = self.disconnect_run()
